@@ -1038,6 +1038,14 @@ class FnTr:
             fail(node, 'value of a function that returns nothing')
         return Val(code, callee.ret_ty, alias, label)
 
+    def coerce_arg(self, v, want, node):
+        """hook: an argument of type v.ty where `want` is expected (none in T9 / T10; T12 passes a length where a
+        Python int is expected)"""
+        return v
+
+    def check_arg(self, v, callee, node):
+        """hook: an argument about to be passed to a translated callee (no check in T9 / T10)"""
+
     def call_code(self, c, node, env, pre):
         """-> (coq application, callee).  Arguments are evaluated left to right (their pre-bindings first)."""
         kind, callee = c[0], c[1]
@@ -1077,6 +1085,9 @@ class FnTr:
                 codes[p] = (None, self.atom(v))         # an Optional passed on as it is
                 continue
             want = ty[3:] if ty.startswith('opt') else ty
+            if v.ty != want:
+                v = self.coerce_arg(v, want, a)
+            self.check_arg(v, callee, a)
             if v.ty != want and not (want == 'labelset' and v.ty == 'labels'):
                 fail(a, f'argument of type {v.ty} where {ty} is expected')
             code = self.atom(v)
